@@ -462,6 +462,7 @@ func (cache *dirCache) clean(highWaterMark, lowWaterMark uint64) uint64 {
 		return entries[i].Atime < entries[j].Atime
 	})
 	for _, entry := range entries {
+		verifhook.Point("dircache.clean.next")
 		if _, marked := cache.isMarked(entry.Path); marked {
 			continue
 		}
